@@ -17,14 +17,26 @@
 #include "nmtools/array/array/ufuncs/ceil.hpp"
 #include "nmtools/array/array/ufuncs/floor.hpp"
 #include "nmtools/array/array/activations/relu.hpp"
+#include "nmtools/array/array/activations/relu6.hpp"
+#include "nmtools/array/array/activations/hardtanh.hpp"
+#include "nmtools/array/array/activations/leaky_relu.hpp"
+#include "nmtools/array/array/activations/prelu.hpp"
+#include "nmtools/array/array/activations/softshrink.hpp"
+#include "nmtools/array/array/activations/softsign.hpp"
+#include "nmtools/array/array/activations/hardshrink.hpp"
+#include "nmtools/array/array/activations/hardswish.hpp"
 #include "nmtools/array/array/matmul.hpp"
 #include <cstring>
 
 using namespace verif;
 namespace simd = nmtools::array::simd;
 
+// reductions (reduce, matmul) are "equal up to re-association": a sum that is zero may come out as +0.0 or -0.0 depending on
+// the order and on the accumulator's start; both sides are logged with the sign of zero dropped for those operations
+static bool g_drop_zero_sign = false;
 template <class T> static std::string bits(T x) {
     char buf[40];
+    if (g_drop_zero_sign && x == (T)0) x = (T)0;
     if constexpr (sizeof(T) == 4) { uint32_t u; std::memcpy(&u, &x, 4); snprintf(buf, sizeof buf, "x%08x", u); }
     else { uint64_t u; std::memcpy(&u, &x, 8); snprintf(buf, sizeof buf, "x%016llx", (unsigned long long)u); }
     return buf;
@@ -54,6 +66,7 @@ static void classify(const std::vector<region_t>& regions, const vtrace::access_
 
 template <class T, class Ctx> static vj::value run_op(const vj::value& c, Ctx ctx, bool traced) {
     const std::string op = c["op"].as_str(); const auto& g = c["args"];
+    g_drop_zero_sign = op.rfind("reduce_", 0) == 0 || op == "matmul";
     auto mk = [&](size_t j) { std::vector<T> d; for (size_t i = 0; i < c["data"][j].size(); i++) d.push_back((T)c["data"][j][i].as_dbl()); return make_data<T>(c["shapes"][j].as_vec<long>(), d); };
     auto a = mk(0);
     std::vector<region_t> regions{{(const char*)a.data(), a.size() * sizeof(T)}};
@@ -77,6 +90,14 @@ template <class T, class Ctx> static vj::value run_op(const vj::value& c, Ctx ct
     if (op == "ceil") return both([&](auto cx) { return na::ceil(a, cx); });
     if (op == "floor") return both([&](auto cx) { return na::floor(a, cx); });
     if (op == "relu") return both([&](auto cx) { return na::relu(a, cx); });
+    if (op == "relu6") return both([&](auto cx) { return na::relu6(a, cx); });
+    if (op == "hardtanh") return both([&](auto cx) { return na::hardtanh(a, (T)-1, (T)1, cx); });
+    if (op == "leaky_relu") return both([&](auto cx) { return na::leaky_relu(a, (T)0.25, cx); });
+    if (op == "prelu") return both([&](auto cx) { return na::prelu(a, (T)0.25, cx); });
+    if (op == "softshrink") return both([&](auto cx) { return na::softshrink(a, (T)0.5, cx); });
+    if (op == "softsign") return both([&](auto cx) { return na::softsign(a, cx); });
+    if (op == "hardshrink") return both([&](auto cx) { return na::hardshrink(a, (T)0.5, cx); });
+    if (op == "hardswish") return both([&](auto cx) { return na::hardswish(a, cx); });
     if (op == "reduce_add" || op == "reduce_multiply") {
         auto keep = g["keepdims"].as_bool();
         auto red = [&](auto axis, auto cx) { if (op == "reduce_add") { if (keep) return proj_bits(na::add.reduce(a, axis, nm::None, nm::None, nm::True, cx), &regions); return proj_bits(na::add.reduce(a, axis, nm::None, nm::None, nm::False, cx), &regions); }
